@@ -381,6 +381,8 @@ def defaults_family(rng):
              'sweeten': [['remove_defaults']], 'savorize': [['record']]}
         if rng.random() < 0.3:
             k['defaults_override'] = {'note': 'kid%d' % i}
+        if rng.random() < 0.5:
+            k['extra'] = True       # _yatiml_extra: Optional[...] = None
         classes.append(k)
     return {'classes': classes, 'doc_type': ['list', ['cls', 'B0']],
             'profile': 'defaults-family'}
@@ -404,6 +406,10 @@ def run_defaults_family(ctx, rng):
             kw['width'] = rng.choice([1, 2, 3, 5])
         if rng.random() < 0.5:
             kw['note'] = rng.choice(['n/a', 'kid0', 'kid1', 'x', None])
+        if c.get('extra') and rng.random() < 0.6:
+            import collections
+            kw['_yatiml_extra'] = collections.OrderedDict(
+                [('zextra', rng.choice([1, 'x', None]))])
         objs.append(m.classes[c['name']](**kw))
     ctx.count('defaults_family_values')
     # one document with all of them, then each alone (order of first use)
